@@ -110,8 +110,15 @@ def gen_world(rng, profile=None):
                 if rng.random() < 0.15:
                     chain.append(v.geoid)                       # loop back to the start
                 from nrel.hive.util.h3_ops import H3Ops
-                links = tuple(LinkTraversal(link_id=f'{a}-{b}', start=a, end=b, distance_km=H3Ops.great_circle_distance(a, b), speed_kmph=40)
-                              for a, b in zip(chain, chain[1:]))
+                links = [LinkTraversal(link_id=f'{a}-{b}', start=a, end=b, distance_km=H3Ops.great_circle_distance(a, b), speed_kmph=40)
+                         for a, b in zip(chain, chain[1:])]
+                if rng.random() < 0.35:
+                    # boundary: the whole route takes EXACTLY one step (the last link's whole-second travel time equals the time left)
+                    used = sum(l.travel_time_seconds for l in links[:-1] if l.start != l.end)
+                    left = delta - used
+                    if left >= 1 and links[-1].start != links[-1].end:
+                        links[-1] = links[-1]._replace(distance_km=(left + 0.5) / 3600.0 * 40.0)
+                links = tuple(links)
                 vehicles[idx] = v.modify_vehicle_state(Repositioning.build(v.id, links))
     sim = ml.mock_sim(sim_time=t0, sim_timestep_duration_seconds=delta, vehicles=tuple(vehicles), stations=tuple(stations), bases=tuple(bases))
     ids = ([v.id for v in vehicles] + [f's{k}' for k in range(10)] + [f'b{k}' for k in range(4)] + REQ_IDS + CHARGER_IDS
